@@ -52,7 +52,8 @@ def check(ctx, rid, rel, fname, make_args, spec, what):
     ok_all = True
     wit = None
     ncases = 0
-    for m, n in SHAPES:
+    shapes = SHAPES + ([(3, 1), (1, 3)] if ctx.tier == "thorough" else [])
+    for m, n in shapes:
         K, Sa, Sy = generic(m, n)
         args = make_args(K, Sa, Sy, m, n)
         ev = Sym(ctx.repo)
